@@ -135,6 +135,25 @@ func oneElement(t Tensor, hdr *storage.Header) *storage.Header {
 	return hdr
 }
 
+// flatSingle reports whether every one of the given tensors holds exactly one unmasked element. Such operands never need
+// an iterator, whatever their strides, flags or data order say: their one element is the first of their storage. The flat
+// paths have the special cases for single elements (which of the two headers receives the result); the iterator paths
+// do not, and left the result in the scalar's scratch buffer.
+func flatSingle(ts ...Tensor) bool {
+	for _, t := range ts {
+		if t == nil {
+			continue
+		}
+		if t.Size() != 1 {
+			return false
+		}
+		if mt, ok := t.(MaskedTensor); ok && mt.IsMasked() {
+			return false
+		}
+	}
+	return true
+}
+
 // differentLayout reports whether two tensors of one shape lay their elements out differently in memory.
 // By the time the data is prepared, handleFuncOpts has already overwritten the data order flag of a reuse tensor
 // with that of the operands, so the flag cannot tell: the strides are compared.
@@ -171,6 +190,9 @@ func prepDataVV(a, b Tensor, reuse Tensor) (dataA, dataB, dataReuse *storage.Hea
 		!a.DataOrder().HasSameOrder(b.DataOrder()) ||
 		(reuse != nil && (!a.DataOrder().HasSameOrder(reuse.DataOrder()) || !b.DataOrder().HasSameOrder(reuse.DataOrder()))) ||
 		(reuse != nil && (differentLayout(a, reuse) || differentLayout(b, reuse)))
+	if useIter && flatSingle(a, b, reuse) {
+		useIter = false
+	}
 	if useIter {
 		ait = a.Iterator()
 		bit = b.Iterator()
@@ -205,6 +227,9 @@ func prepDataVS(a Tensor, b interface{}, reuse Tensor) (dataA, dataB, dataReuse 
 	useIter = a.RequiresIterator() ||
 		(reuse != nil && reuse.RequiresIterator()) ||
 		(reuse != nil && (!reuse.DataOrder().HasSameOrder(a.DataOrder()) || differentLayout(a, reuse)))
+	if useIter && flatSingle(a, reuse) {
+		useIter = false
+	}
 	if useIter {
 		ait = a.Iterator()
 		if reuse != nil {
@@ -229,6 +254,9 @@ func prepDataSV(a interface{}, b Tensor, reuse Tensor) (dataA, dataB, dataReuse 
 	useIter = b.RequiresIterator() ||
 		(reuse != nil && reuse.RequiresIterator()) ||
 		(reuse != nil && (!reuse.DataOrder().HasSameOrder(b.DataOrder()) || differentLayout(b, reuse)))
+	if useIter && flatSingle(b, reuse) {
+		useIter = false
+	}
 
 	if useIter {
 		bit = b.Iterator()
@@ -247,7 +275,7 @@ func prepDataUnary(a Tensor, reuse Tensor) (dataA, dataReuse *storage.Header, ai
 	}
 
 	// get iterator
-	if a.RequiresIterator() || (reuse != nil && (reuse.RequiresIterator() || !reuse.DataOrder().HasSameOrder(a.DataOrder()) || differentLayout(a, reuse))) {
+	if (a.RequiresIterator() || (reuse != nil && (reuse.RequiresIterator() || !reuse.DataOrder().HasSameOrder(a.DataOrder()) || differentLayout(a, reuse)))) && !flatSingle(a, reuse) {
 		ait = a.Iterator()
 		if reuse != nil {
 			rit = reuse.Iterator()
